@@ -24,6 +24,8 @@ update; (R10-removes-only-its-own) only its own temporary and the published modu
 
 Round 6: the temporary name carries process id and thread id read at write time (or a name of
 its own); publication after close, by os.replace and not by a copying primitive.
+Round 7: includes the closedness rules E of C15 (the blocks rely only on names every driver binds
+itself: a field table bound in the module by the builder is shared by same-named classes).
 """
 import ast
 
